@@ -4,6 +4,9 @@ mod util;
 #[macro_use]
 mod ops_img;
 mod ops_pure;
+mod ops_typed;
+mod ops_rich;
+mod ops_convert;
 // MOD-MARKER (add `mod ops_<m>;` above this line)
 
 use std::cell::RefCell;
@@ -25,6 +28,9 @@ fn dispatch(st: &mut State, line: &str) -> String {
 	None
 		.or_else(|| ops_pure::dispatch(st, fam, rest))
 		.or_else(|| ops_img::dispatch(st, fam, rest))
+		.or_else(|| ops_typed::dispatch(st, fam, rest))
+		.or_else(|| ops_rich::dispatch(st, fam, rest))
+		.or_else(|| ops_convert::dispatch(st, fam, rest))
 		// DISPATCH-MARKER (add `.or_else(|| ops_<m>::dispatch(st, fam, rest))` above this line)
 		.unwrap_or_else(|| "bad-op".to_string())
 }
